@@ -23,6 +23,9 @@ pub struct Cfg {
     /// number of symbols (E = 4)
     pub symbols: usize,
     pub second: bool,
+    /// the FDT's own carousel: 0 = delay 1 s (default), 1 = delay 0, 2 = interval 0, 3 = interval 2 ticks, 4 = delay 3 ticks
+    #[serde(default)]
+    pub fdt_carousel: u8,
 }
 
 #[derive(Serialize, Deserialize, Clone, Debug)]
@@ -83,6 +86,19 @@ pub fn run_case(case: &Case, g: &mut G) -> Option<(String, String)> {
     let r = catch(|| -> Option<(String, String)> {
         let mut sess = SessSpec::basic(OtiSpec::new(Scheme::NoCode, 1424, 64, 0, true));
         sess.queues = vec![(0, 1), (1, 1)];
+        sess.fdt_carousel = match c.fdt_carousel {
+            1 => Carousel::Delay(0),
+            2 => Carousel::Interval(0),
+            3 => Carousel::Interval(2 * TICK),
+            4 => Carousel::Delay(3 * TICK),
+            _ => Carousel::Delay(1000),
+        };
+        let fdt_gap: u64 = match c.fdt_carousel {
+            1 | 2 => 0,
+            3 => 2 * TICK,
+            4 => 3 * TICK,
+            _ => 1000,
+        };
         let cat = Arc::new(objects(c));
         let mut sys = SendSys::new(&sess, cat.clone());
         for k in 0..cat.len() {
@@ -119,6 +135,14 @@ pub fn run_case(case: &Case, g: &mut G) -> Option<(String, String)> {
             poll_ends.push((sys.log.len(), sys.now_ms));
             if let Some(p) = &sys.panicked {
                 return Some((format!("C14/panic/{}", panic_sig(p)), format!("panic in poll {}: {}", pi, p)));
+            }
+        }
+        if std::env::var("VERIF_DEBUG").is_ok() {
+            for it in &sys.log {
+                match it {
+                    Item::Pkt(p) => eprintln!("  pkt t={} toi={} sbn={} esi={} b={} fdt={:?}", p.t_ms, p.toi, p.sbn, p.esi, p.b, p.fdt_id),
+                    other => eprintln!("  {:?}", other),
+                }
             }
         }
         // no stall: advance far, every configured transfer completes
@@ -265,20 +289,23 @@ pub fn run_case(case: &Case, g: &mut G) -> Option<(String, String)> {
         }
         // the FDT's own carousel (DelayBetweenTransfers 1 s): an instance is never re-emitted earlier
         {
-            let mut last_emission: std::collections::BTreeMap<u32, u64> = Default::default();
+            let mut last_emission: std::collections::BTreeMap<(u32, u32, u32), u64> = Default::default();
             for it in sys.log.iter() {
                 if let Item::Pkt(p) = it {
                     if p.toi == 0 {
                         if let Some(id) = p.fdt_id {
-                            if let Some(prev) = last_emission.get(&id) {
-                                if p.t_ms > *prev && p.t_ms < *prev + 1000 {
-                                    return Some(("C14/fdt-carousel-too-early".into(), format!("FDT instance {} re-emitted at t={}ms, previous emission at t={}ms, carousel delay 1000 ms", id, p.t_ms, prev)));
+                            if let Some(prev) = last_emission.get(&(id, p.sbn, p.esi)) {
+                                if p.t_ms > *prev && p.t_ms < *prev + fdt_gap {
+                                    return Some(("C14/fdt-carousel-too-early".into(), format!("FDT instance {} re-emitted at t={}ms, previous emission at t={}ms, FDT carousel period {} ms", id, p.t_ms, prev, fdt_gap)));
+                                }
+                                if p.t_ms == *prev {
+                                    return Some(("C14/fdt-instance-emitted-twice-at-one-instant".into(), format!("packet ({}, {}) of FDT instance {} emitted twice at t={}ms (FDT carousel period {} ms)", p.sbn, p.esi, id, p.t_ms, fdt_gap)));
                                 }
                                 if p.t_ms > *prev {
                                     g.fdt_reemissions += 1;
                                 }
                             }
-                            last_emission.insert(id, p.t_ms);
+                            last_emission.insert((id, p.sbn, p.esi), p.t_ms);
                         }
                     }
                 }
@@ -331,7 +358,12 @@ pub fn configs() -> Vec<Cfg> {
             for target in 0..6u8 {
                 for symbols in [0usize, 1, 3] {
                     for second in [false, true] {
-                        v.push(Cfg { start, carousel, target, symbols, second });
+                        v.push(Cfg { start, carousel, target, symbols, second, fdt_carousel: 0 });
+                        if !second && target == 0 && start != Some(-2) {
+                            for fdt_carousel in 1..5u8 {
+                                v.push(Cfg { start, carousel, target, symbols, second, fdt_carousel });
+                            }
+                        }
                     }
                 }
             }
